@@ -268,6 +268,13 @@ class SignInterp:
     # ------------------------------------------------------------------ calls
     def call(self, e: ast.Call, st: State):
         f = e.func
+        # a callback written as a zero-argument lambda or a functools.partial: call what it wraps
+        if isinstance(f, ast.Lambda) and not e.args and not e.keywords and not f.args.args:
+            return self.ev(f.body, st)
+        if isinstance(f, ast.Call) and (dotted(f.func) or "").split(".")[-1] == "partial" and f.args:
+            inner = ast.Call(func=f.args[0], args=list(f.args[1:]) + list(e.args), keywords=list(f.keywords) + list(e.keywords))
+            ast.copy_location(inner, e)
+            return self.call(inner, st)
         name = f.attr if isinstance(f, ast.Attribute) else getattr(f, "id", "")
         if name == "len" and e.args:
             res = []
